@@ -2,7 +2,7 @@
 From Coq Require Import List NArith ZArith Arith Bool.
 Import ListNotations.
 From Chiri Require Import Base.Bytes Base.Res Model.TagParser Model.Chrono Model.Markers Spec.CivilTime
-     Proofs.C05Proofs Proofs.ChronoProofs.
+     Proofs.C05Proofs Proofs.ChronoProofs Proofs.ChronoPadding.
 Local Open Scope Z_scope.
 
 (** Ready exactly when the first `to` attribute has a value which, followed by a space and the
@@ -125,6 +125,28 @@ Theorem C05_malformed_offsets :
     parse_datetime (render_to y m d h mi s ++ [SP] ++ off) = None.
 Proof. exact malformed_offsets. Qed.
 Print Assumptions C05_malformed_offsets.
+
+(** White space inside the quotes is not part of the wall-clock time: ASCII white space in front of the year and
+    behind the seconds is skipped, and any run of it between the date and the time reads as the single blank - the
+    parse result (success or failure, and the instant) is that of the plain value, whatever the offset string. *)
+Theorem C05_padding_is_skipped :
+  forall w1 w2 y m d h mi s off,
+    forallb ascii_ws w1 = true -> forallb ascii_ws w2 = true ->
+    0 <= y <= 9999 -> 0 <= m <= 99 -> 0 <= d <= 99 -> 0 <= h <= 99 -> 0 <= mi <= 99 -> 0 <= s <= 99 ->
+    parse_datetime (w1 ++ render_to y m d h mi s ++ w2 ++ [SP] ++ off)
+    = parse_datetime (render_to y m d h mi s ++ [SP] ++ off).
+Proof. exact padding_is_skipped. Qed.
+Print Assumptions C05_padding_is_skipped.
+
+Theorem C05_inner_padding_is_skipped :
+  forall w y m d h mi s off,
+    forallb ascii_ws w = true ->
+    0 <= y <= 9999 -> 0 <= m <= 99 -> 0 <= d <= 99 -> 0 <= h <= 99 -> 0 <= mi <= 99 -> 0 <= s <= 99 ->
+    parse_datetime (render4 y ++ [45%N] ++ render2 m ++ [45%N] ++ render2 d ++ w ++ [SP]
+                    ++ render2 h ++ [58%N] ++ render2 mi ++ [58%N] ++ render2 s ++ [SP] ++ off)
+    = parse_datetime (render_to y m d h mi s ++ [SP] ++ off).
+Proof. exact inner_padding_is_skipped. Qed.
+Print Assumptions C05_inner_padding_is_skipped.
 
 (** Non-vacuity / boundary: to="2001-09-09 01:46:40" at +00:00 is the instant 1000000000;
     ready at that instant, not ready one second earlier; at +09:00 the same wall-clock reading
